@@ -16,7 +16,7 @@
    group; the abstract section is then applied to the subset type { P | validb P = true }. *)
 From BSV Require Import Base.Bytes.
 From BSV Require Import Prim.Num Prim.Secp256k1 Proofs.Secp256k1Proofs Proofs.Secp256k1Order Proofs.EcdsaAbstract.
-From Coq Require Import Eqdep_dec Zdiv.
+From Coq Require Import Eqdep_dec Zdiv Setoid Morphisms.
 Local Open Scope Z_scope.
 
 Definition validb (P : point) : bool :=
@@ -227,6 +227,80 @@ Section Instance.
                d k z z' r s v Hk Hx Hs Hz _).
     destruct (recover_point_g vpt v_mul v_add v_G v_lift secp_n sinv r s v z') as [P|]; [|discriminate].
     cbn [option_map] in E. f_equal. apply vpt_eq. cbn [vp proj1_sig v_mul v_G]. congruence.
+  Qed.
+
+  (* ---------------------------------------------------------------- *)
+  (* A genuine signature never hits the "recovers to the identity" guard of the repository
+     (Signature::recovers_identity: s*R == z*G with R = decompress(r, recovery bit)). *)
+  Local Instance eqm_equiv_s : Equivalence (eqm secp_n) := eqm_setoid secp_n.
+  Local Instance eqm_add_s : Proper (eqm secp_n ==> eqm secp_n ==> eqm secp_n) Z.add := Zplus_eqm secp_n.
+  Local Instance eqm_sub_s : Proper (eqm secp_n ==> eqm secp_n ==> eqm secp_n) Z.sub := Zminus_eqm secp_n.
+  Local Instance eqm_mul_s : Proper (eqm secp_n ==> eqm secp_n ==> eqm secp_n) Z.mul := Zmult_eqm secp_n.
+
+  Local Notation a_sign_facts :=
+    (sign_facts vpt v_add v_neg v_zero v_mul v_G secp_n v_x v_yodd v_isinf v_lift sinv
+       v_add_assoc v_add_comm v_add_0_l v_add_neg_r v_mul_add v_mul_mul v_mul_1 secp_n_gt_1 v_inv_ok v_x_neg).
+  Local Notation a_smul_eqm_G :=
+    (smul_eqm_G vpt v_add v_neg v_zero v_mul v_G secp_n v_x v_yodd v_isinf v_lift sinv
+       v_add_assoc v_add_comm v_add_0_l v_add_neg_r v_mul_add v_mul_mul v_mul_1 secp_n_gt_1 v_mul_n_G v_inv_ok v_x_neg).
+  Local Notation a_smul_neg :=
+    (smul_neg vpt v_add v_neg v_zero v_mul v_add_assoc v_add_comm v_add_0_l v_add_neg_r v_mul_add).
+  Local Notation a_smul_0 :=
+    (smul_0 vpt v_add v_neg v_zero v_mul v_add_assoc v_add_comm v_add_0_l v_add_neg_r v_mul_add).
+  Local Notation a_pneg_nonzero := (pneg_nonzero vpt v_add v_neg v_zero v_add_comm v_add_0_l v_add_neg_r).
+
+  Lemma eqm_1 a : 0 < a < secp_n -> eqm secp_n (a * sinv a) 1.
+  Proof. intros Ha. unfold eqm. rewrite (v_inv_ok a Ha). reflexivity. Qed.
+
+  Lemma v_genuine_not_identity d k z r s v R :
+    0 < k < secp_n -> 0 <= v_x (v_mul k v_G) < secp_n -> v_mul d v_G <> v_zero ->
+    prim_sign_g vpt v_mul v_G v_x v_yodd secp_n sinv d k z = Some (r, s, v) ->
+    v_lift r v = Some R -> v_mul s R <> v_mul z v_G.
+  Proof.
+    intros Hk Hx HQ Hs HR E.
+    destruct (a_sign_facts d k z r s v Hk Hs) as (Hr & Hsr & Hrx & e & He & Hse).
+    rewrite Z.mod_small in Hrx by exact Hx.
+    set (Rk := v_mul k v_G) in *.
+    assert (RZ : Rk <> v_zero) by (intros E0; rewrite E0, v_x_zero in Hrx; lia).
+    assert (HL : v_lift r v = Some (v_mul (e * k) v_G)).
+    { destruct He as [[-> ->]|[-> ->]].
+      - rewrite Z.mul_1_l, Hrx. apply v_lift_ok. exact RZ.
+      - replace (-1 * k) with (- k) by ring. rewrite a_smul_neg. fold Rk.
+        rewrite Hrx, <- (v_x_neg Rk), <- v_yodd_neg by exact RZ.
+        apply v_lift_ok. apply a_pneg_nonzero. exact RZ. }
+    rewrite HL in HR. inversion HR; subst R; clear HR.
+    rewrite <- v_mul_mul in E.
+    assert (Z0 : v_mul (s * (e * k) - z) v_G = v_zero).
+    { unfold Z.sub. rewrite v_mul_add, a_smul_neg, E. apply v_add_neg_r. }
+    apply v_order_exact in Z0.
+    (* s e k = z + r d, hence r d = 0 modulo n *)
+    assert (E1 : eqm secp_n (s * (e * k)) (z + r * d)).
+    { transitivity ((s * e) * k); [unfold eqm; f_equal; ring|].
+      rewrite Hse.
+      transitivity ((k * sinv k) * (z + r * d)); [unfold eqm; f_equal; ring|].
+      rewrite (eqm_1 k Hk). unfold eqm; f_equal; ring. }
+    assert (E2 : eqm secp_n (r * d) 0).
+    { transitivity ((z + r * d) - z); [unfold eqm; f_equal; ring|].
+      rewrite <- E1. unfold eqm. rewrite Z0. reflexivity. }
+    apply HQ.
+    rewrite (a_smul_eqm_G d (sinv r * (r * d))).
+    - rewrite (a_smul_eqm_G (sinv r * (r * d)) 0); [apply a_smul_0|].
+      rewrite E2. unfold eqm; f_equal; ring.
+    - transitivity ((r * sinv r) * d); [|unfold eqm; f_equal; ring].
+      rewrite (eqm_1 r) by lia. unfold eqm; f_equal; ring.
+  Qed.
+
+  Theorem secp_genuine_not_identity d k z r s v R :
+    0 < k < secp_n -> 0 <= xcoord (smul k G) < secp_n -> smul d G <> None ->
+    prim_sign d k z = Some (r, s, v) -> lift_x r v = Some R -> smul s R <> smul z G.
+  Proof.
+    intros Hk Hx HQ Hs HR E. rewrite <- v_sign in Hs.
+    pose proof (v_lift_spec r v) as S. rewrite HR in S.
+    destruct (v_lift r v) as [R'|] eqn:EL; [|discriminate]. cbn [option_map] in S.
+    assert (ER : vp R' = R) by congruence. subst R.
+    refine (v_genuine_not_identity d k z r s v R' Hk Hx _ Hs EL _).
+    - intros E0. apply HQ. exact (f_equal vp E0).
+    - apply vpt_eq. exact E.
   Qed.
 End Instance.
 
